@@ -2385,6 +2385,19 @@ class DiskObjectStore(PackBasedObjectStore):
         adjust_shared_perm(path, self.shared_perm)
 
         def commit() -> "Pack | None":
+            try:
+                return index_and_complete()
+            except BaseException:
+                # The temporary file is ours until _complete_pack has moved
+                # it into place. Callers call abort() when writing fails, not
+                # after a failed commit(): do not leave the file (and the
+                # open handle) behind.
+                f.close()
+                with suppress(FileNotFoundError):
+                    os.remove(path)
+                raise
+
+        def index_and_complete() -> "Pack | None":
             if f.tell() > 0:
                 f.seek(0)
 
